@@ -167,7 +167,7 @@ func runC05(tier string) int {
 		}
 	}
 	forEachEngineProgram(r, plans, swN, evalProgram)
-	mixed := mixedNestingPrograms(tier)
+	mixed := append(mixedNestingPrograms(tier), hugePrograms(tier)...)
 	if !r.Parallel(uint64(len(mixed)), func(w int, i uint64) { evalProgram(w, mixed[i]) }) {
 		r.NotExhaustive("mixed nesting programs not completed")
 	}
